@@ -27,10 +27,13 @@ import subprocess
 import tempfile
 from concurrent.futures import ThreadPoolExecutor
 
+from .watchdog import limited
+
 CT = {"i8": "signed char", "u8": "unsigned char", "i16": "short", "u16": "unsigned short", "i32": "int",
       "u32": "unsigned int", "i64": "long long", "u64": "unsigned long long"}
 NBYTES = {"i8": 1, "u8": 1, "i16": 2, "u16": 2, "i32": 4, "u32": 4, "i64": 8, "u64": 8}
 GCC = "gcc"
+COMPILE_LIMIT_S = 180    # per call into ppci's code generator (a changed tree may loop; normal: well under a second)
 CHILD_CPU_S = 4          # CPU seconds per execution (a defined execution needs microseconds)
 CHILD_WALL_S = 60        # wall-clock back-stop per execution (the machine is shared and may be heavily loaded)
 THREADS = 8
@@ -436,7 +439,7 @@ def run_exe(args, expect):
     return res
 
 
-def run_gcc_linked(wd, groups, batch=24, pool=None):
+def run_gcc_linked(wd, groups, batch=32, pool=None):
     """groups: list of groups; a group = list of Units with the same prefix / signature / vectors (the variants
     of one program: optimisation levels), each with its own `elf`.  One gcc-compiled driver object per batch
     of groups, one executable per (batch, variant slot).  -> {unit.key: [observation per vector]}"""
@@ -483,6 +486,12 @@ def _link_and_run(wd, drv, members):
         paths.append(p)
     exe, err = gcc_link(wd, [drv] + paths)
     if exe is None:
+        # the driver alone must link (all references to the objects under test are weak): otherwise gcc/ld are
+        # unusable here and the failed link cannot be blamed on ppci's objects
+        alone, err0 = gcc_link(wd, [drv])
+        if alone is None:
+            raise HarnessError("gcc cannot link the driver by itself: %s" % err0[:1500])
+        os.unlink(alone)
         if len(members) == 1:
             u = members[0][1]
             m = re.search(r"(undefined reference|multiple definition|file format not recognized|relocation truncated|"
@@ -670,13 +679,16 @@ def compile_ir(m, level, watch=None, tags=None):
     `tags` (a list) receives ir_tags of the module handed to the back-end."""
     from ppci import api
 
-    try:
+    def work():
         if str(level) != "0":
             api.optimize(m, level=level)
         if tags is not None:
             tags.extend(ir_tags(m))
-        obj = api.ir_to_object([m], "x86_64")
-    except Exception as e:  # code generation refused the module: property C29's business
+        return api.ir_to_object([m], "x86_64")
+
+    try:
+        obj = limited(work, COMPILE_LIMIT_S, "x86_64 codegen")
+    except Exception as e:  # code generation refused the module (or does not terminate): property C29's business
         return None, None, "codegen:" + type(e).__name__
     try:
         return obj, elf_bytes(obj), None
